@@ -21,7 +21,7 @@ theorem C09_gather (a : Arr) (axis newN : Nat) (src : Nat → List Nat) (idx : L
     `k` of the dropped axis, of the parent entries with `k` inserted at that axis. -/
 theorem C09_marginal (a : Arr) (axis : Nat) (idx : List Nat)
     (h : validIdx (Arr.removeAt (Arr.setAt a.shape axis 1) axis) idx = true)
-    (h2 : validIdx (Arr.setAt a.shape axis 1) (idx.take axis ++ [0] ++ idx.drop axis) = true)
+    (h2 : validIdx (Arr.setAt a.shape axis 1) (idx.take axis ++ [0] ++ idx.drop axis) = true) :
     (a.sumAxis axis).get idx
       = ((List.range (a.shape[axis]?.getD 0)).map fun k =>
           a.get (Arr.setAt (idx.take axis ++ [0] ++ idx.drop axis) axis k)).sum := by
